@@ -267,7 +267,79 @@ def _result(world, case, viol, counters):
     return res
 
 
+def gen_stall_case(seed):
+    rnd = random.Random(seed * 4409 + 7)
+    K = rnd.choice([20, 40, 80])
+    replies = []
+    for _ in range(K):
+        nl = rnd.choice([1, 2, 3, 8, 20])
+        lines = ["".join(rnd.choice("abcXYZ 019-_.;=") for _ in range(rnd.randint(0, 50))).rstrip() for _ in range(nl)]
+        code = str(rnd.randint(200, 599))
+        replies.append({"final": [code, lines, nl > 1 and rnd.random() < 0.5]})
+    T = rnd.choice([0.5, 2.0, None])
+    return {"mode": "stall", "seed": seed, "encoding": "utf-8", "replies": replies, "socket_timeout": T, "pause": rnd.choice([0.2, 1.5, 5.0, 30.0]), "reader_limit": rnd.choice([256, 1024])}
+
+
+def run_stall_case(case):
+    """The peer pipelines K commands and then does not read the control channel for a while:
+    its receive buffers fill, the server's reply writer blocks (and, with socket_timeout set,
+    times out in the middle of a multi-line reply).  Whatever the server does about that - wait,
+    or drop the session - every reply the client decodes afterwards must be one of the replies
+    that were sent, complete and in order: a prefix of the sequence, never a glued or truncated
+    one taken for a reply."""
+    rng = random.Random(case["seed"] * 7919 + 79)
+    net = scenario.random_net(rng, allow_small_pipe=False)
+    net["capacity"], net["high_water"] = 512, 256
+    sc = {"seed": case["seed"], "net": net}
+    viol = []
+    info = {"decoded": 0}
+    world = scenario.setup_world(sc, max_steps=3_000_000)
+    with world:
+        scenario.apply_net(world.net, net)
+        server = EchoServer(case["replies"], [aioftp.User()], path_io_factory=aioftp.MemoryPathIO, encoding=case["encoding"], socket_timeout=case["socket_timeout"])
+        world.server = server
+        client = aioftp.Client(path_io_factory=aioftp.MemoryPathIO, encoding=case["encoding"])
+        K = len(case["replies"])
+
+        async def main():
+            await server.start("127.0.0.1", 2121)
+            await client.connect("127.0.0.1", 2121)
+            client.stream.reader._limit = case["reader_limit"]  # the peer's receive buffer is small
+            await client.stream.write("".join(f"ECHO {i}\r\n" for i in range(K)).encode())
+            await asyncio.sleep(case["pause"])
+            info["server_blocked"] = any(t.side == "s" and t._sendbuf for t in world.net.transports)
+            for i, item in enumerate(case["replies"]):
+                code, lines, lst = item["final"]
+                try:
+                    gcode, ginfo = await asyncio.wait_for(client.parse_response(), 1e4)
+                except (ConnectionError, asyncio.IncompleteReadError):
+                    info["dropped_after"] = i
+                    break
+                except asyncio.TimeoutError:
+                    viol.append({"clause": "reply-never-completed", "subject": "stalled-reader", "detail": f"after the peer resumed reading, reply #{i} of {K} never arrived and the connection was not closed either (socket_timeout={case['socket_timeout']}, pause {case['pause']})"})
+                    break
+                except Exception as e:
+                    viol.append({"clause": "reply-misread", "subject": "stalled-reader", "detail": f"reply #{i}: client raised {e!r} (socket_timeout={case['socket_timeout']}, pause {case['pause']})"[:400]})
+                    break
+                want = expected_info(lines)
+                ok = str(gcode) == code and len(ginfo) == len(want) and all(g[1:] == w for g, w in zip(ginfo, want))
+                if not ok:
+                    viol.append({"clause": "reply-decoded-differently", "subject": "stalled-reader", "detail": f"peer did not read for {case['pause']}s (socket_timeout={case['socket_timeout']}); reply #{i}: sent code {code} lines {lines!r}; client decoded code {str(gcode)} with {len(ginfo)} lines {ginfo[:4]!r}"[:600]})
+                    break
+                info["decoded"] += 1
+            client.close()
+            await asyncio.sleep(1)
+            await asyncio.wait_for(server.close(), 1e4)
+
+        world.run(main())
+        if world.outcome not in ("ok", "budget", "deadlock"):
+            raise common.HarnessError(f"scenario failed: {world.outcome}: {world.error!r}")
+        return _result(world, case, viol, {"replies_decoded": info["decoded"], "probe.reply_writer_blocked_by_unread_peer": int(bool(info.get("server_blocked"))), "probe.session_dropped_while_peer_not_reading": int("dropped_after" in info)})
+
+
 def run_case(case):
+    if case["mode"] == "stall":
+        return run_stall_case(case)
     return run_echo_case(case) if case["mode"] == "echo" else run_bad_case(case)
 
 
@@ -351,6 +423,8 @@ def main(argv=None):
                 yield gen_case(a.seed * 1_000_000 + i)
                 if i % 10 == 0:
                     yield {"mode": "bad", "seed": a.seed * 1_000_000 + i}
+                if i % 25 == 1:
+                    yield gen_stall_case(a.seed * 1_000_000 + i)
 
         cases = common.with_samples(gen(), 2)
         for case, res in pool.map(run_case, cases, deadline=deadline, chunksize=16):
